@@ -251,6 +251,15 @@ class Extractor(object):
                     if isinstance(sub, ast.Name) and isinstance(sub.ctx, ast.Store):
                         p.env.pop(sub.id, None)
             return paths
+        if isinstance(st, (ast.With, ast.AsyncWith)):
+            for p in paths:
+                for it in st.items:
+                    self._calls_in(it.context_expr, p)
+                    if it.optional_vars is not None:
+                        for sub in ast.walk(it.optional_vars):
+                            if isinstance(sub, ast.Name):
+                                p.env.pop(sub.id, None)
+            return self._block(st.body, paths, done)
         if isinstance(st, ast.Try):
             # normal path: body/orelse/finally; each handler: a separate path starting from the state before the try
             before = [p.clone() for p in paths]
